@@ -13,11 +13,17 @@ Definition bounding_box (p : pdb) : sx :=
   SL [SL [sx_of_fval (fmin (map a_x a) f64_max); sx_of_fval (fmin (map a_y a) f64_max); sx_of_fval (fmin (map a_z a) f64_max)];
       SL [sx_of_fval (fmax (map a_x a) f64_min); sx_of_fval (fmax (map a_y a) f64_min); sx_of_fval (fmax (map a_z a) f64_min)]].
 
+(* a coordinate whose square is not a binary64 number any more: 2^500 and above, or below 2^-500 without being zero *)
+Definition far_or_tiny (p : pt) : bool :=
+  let '(x, y, z) := p in
+  existsb (fun v : Q => let a := Qabs v in
+             (Qle_bool (inject_Z (2 ^ 500)) a || (negb (Qeq_bool a 0) && Qle_bool a (1 # (2 ^ 500))))%bool) [x; y; z].
 Fixpoint dedup (l : list text) : list text :=
   match l with [] => [] | x :: r => if existsb (text_eqb x) r then dedup r else x :: dedup r end.
 Definition contacts (p : pdb) (cutoff : Q) : sx :=
   let ids := ssort text text_cmp (dedup (map ch_id (p_chains p))) in
-  let d2 := (cutoff * cutoff)%Q in
+  (* closer than the cut-off: nothing is closer than a cut-off that is not positive; otherwise compare the squares (exactly) *)
+  let d2 := (if Qle_bool cutoff 0 then 0 else cutoff * cutoff)%Q in
   SL (flat_map (fun a => match filter (in_contact p d2 a) ids with
                          | [] => []
                          | l => [SL [SS a; SL (map SS l)]] end) ids).
@@ -90,6 +96,8 @@ Definition run_c14 (x : sx) : sx :=
       | Some None => SY "-"
       | Some (Some r) => SL [sbool (qle_b (q_of_fval (fval_of_sx d)) (q_of_fval r))]
       end
+  | SL [SY "classify"; SL [SY "dist"; a; b; _]] =>
+      if (far_or_tiny (pt_of_sx a) || far_or_tiny (pt_of_sx b))%bool then SY "Known_distance_square_out_of_range" else SY "none"
   | SL (SY "classify" :: _) => SY "none"
   | _ => SY "bad-input"
   end.
